@@ -98,7 +98,7 @@ impl Default for ChildCfg<'_> {
 			cwd: None,
 			env: Vec::new(),
 			env_remove: vec!["JSONNET_PATH".to_owned(), "JRSONNET_LEGACY_PARSER".to_owned()],
-			timeout: Duration::from_secs(60),
+			timeout: Duration::from_secs(900),
 			rlimit_as: 4 << 30,
 			stdin: None,
 		}
